@@ -6,7 +6,7 @@ import numpy as np
 
 from . import ref, pristine
 from .core import Result, quiet, digest_of
-from .oracle import diff, fingerprint, outcome
+from .oracle import diff, fingerprint
 from .simcfg import gen_sim_cfg, simpler_sim_cfgs
 from .simpool import Sim, Installed, SimDeadlock
 from .workload import thorough, gen_band, gen_signal_spec, build_signal, gen_cf_kwargs, \
